@@ -1,9 +1,11 @@
 package main
 
 import (
+	"encoding/json"
 	"flag"
 	"fmt"
 	"os"
+	"path/filepath"
 	"sort"
 	"strings"
 	"time"
@@ -23,11 +25,34 @@ var (
 	flagOut       = flag.String("out", "", "directory for evidence/ and replays/ (default /verif)")
 )
 
+// checkProp is set while running `check`: a tree the generator cannot even load is then reported
+// as an undecided property (VIOLATION ... no-failing-input-found, exit 1), not as a tool error.
+var checkProp string
+
+func setupFailed(msg string) {
+	fmt.Fprintln(os.Stderr, msg)
+	if checkProp == "" {
+		os.Exit(2)
+	}
+	dir := filepath.Join(outDir(), "replays", checkProp)
+	os.MkdirAll(dir, 0o755)
+	rp := filepath.Join(dir, "generator_setup.json")
+	b, _ := json.MarshalIndent(map[string]interface{}{"property": checkProp, "obligation": "generator/setup", "status": "unknown",
+		"detail": "the verification conditions could not be generated from this tree (it does not load, or a table the contracts rely on is gone): every obligation of the property is undecided", "output": msg}, "", " ")
+	os.WriteFile(rp, b, 0o644)
+	ev := map[string]interface{}{"property_id": checkProp, "tier": os.Getenv("VERIF_TIER"), "level": "proof", "violations": 1,
+		"assumptions": []string{"none: generation failed"}, "coverage": map[string]interface{}{"obligations": 0, "discharged": 0, "generator_errors": []string{msg}}}
+	eb, _ := json.MarshalIndent(ev, "", " ")
+	os.MkdirAll(filepath.Join(outDir(), "evidence"), 0o755)
+	os.WriteFile(filepath.Join(outDir(), "evidence", checkProp+".json"), eb, 0o644)
+	fmt.Printf("VIOLATION property=%s replay=%s obligation=\"generator/setup\" status=unknown no-failing-input-found\n", checkProp, rp)
+	os.Exit(1)
+}
+
 func setup() *Program {
 	pr, err := loadProgram(*flagRepo)
 	if err != nil {
-		fmt.Fprintln(os.Stderr, "load:", err)
-		os.Exit(2)
+		setupFailed("load: " + err.Error())
 	}
 	cp := *flagContracts
 	if cp == "" {
@@ -38,15 +63,13 @@ func setup() *Program {
 		if os.IsNotExist(err) {
 			cs = &Contracts{Specs: map[string]*Spec{}, Funcs: map[string]*FuncContract{}}
 		} else {
-			fmt.Fprintln(os.Stderr, "contracts:", err)
-			os.Exit(2)
+			setupFailed("contracts: " + err.Error())
 		}
 	}
 	pr.Cs = cs
-	tb, err := loadTables(*flagRepo)
+	tb, err := loadTables(*flagRepo, func(name string) bool { return pr.Pkg.Types.Scope().Lookup(name) != nil })
 	if err != nil {
-		fmt.Fprintln(os.Stderr, "tables:", err)
-		os.Exit(2)
+		setupFailed("tables: " + err.Error())
 	}
 	pr.Tables = tb
 	return pr
@@ -152,6 +175,9 @@ func main() {
 	case "ssa":
 		cmdSSA(args[1:])
 	case "check":
+		if len(args) > 1 {
+			checkProp = args[1]
+		}
 		cmdCheck(args[1:])
 	case "baseline":
 		cmdBaseline()
